@@ -108,6 +108,9 @@ func (e *Engine) observablesOf(fr *Frame, st *State) []NamedTerm {
 		if v.Pkg() == nil || t == nil {
 			continue
 		}
+		if t.S.IsSlice() && v.Pos() >= top.fn.Decl.Pos() && v.Pos() <= top.fn.Decl.End() {
+			out = append(out, NamedTerm{"len(local:" + v.Name() + ")", Acc(t, "len")})
+		}
 		if t.S == StrSort || t.S == IntSort || t.S == BoolSort {
 			if v.Pos() >= top.fn.Decl.Pos() && v.Pos() <= top.fn.Decl.End() {
 				nm := "local:" + v.Name()
@@ -187,7 +190,11 @@ func modelValues(o *Obligation, hyps []*Term) map[string]string {
 			nm := fmt.Sprintf("obs!%d", i)
 			extra = append(extra, Eq(Var(nm, nt.T.S), nt.T))
 			if bound > 0 && strings.HasPrefix(nt.Name, "len(") {
-				extra = append(extra, Le(nt.T, IntLit(bound)))
+				b := bound
+				if pass == 0 {
+					b = 8
+				}
+				extra = append(extra, Le(nt.T, IntLit(b)))
 			}
 			if pass == 0 && nt.T.S == IntSort && !strings.HasPrefix(nt.Name, "len(") {
 				// first try small scalars everywhere (smallest counterexamples replay best)
